@@ -199,11 +199,20 @@ class EventReplayer:
     ) -> WorkflowState:
         """Load WorkflowState from a snapshot."""
         state_dict = snapshot.state
+
+        def _timestamp(value: Any) -> datetime | None:
+            # WorkflowState.to_dict() stores the timestamps as ISO strings
+            if isinstance(value, str) and value:
+                return datetime.fromisoformat(value)
+            return value if isinstance(value, datetime) else None
+
         return WorkflowState(
             workflow_id=snapshot.entity_id,
             status=state_dict.get("status"),
             application=state_dict.get("application"),
             name=state_dict.get("name"),
+            start_time=_timestamp(state_dict.get("start_time")),
+            end_time=_timestamp(state_dict.get("end_time")),
             context=state_dict.get("context", {}),
             stages=state_dict.get("stages", {}),
             tasks=state_dict.get("tasks", {}),
